@@ -284,7 +284,7 @@ def _run_system(args):
     for prec in ("none", "left_lu"):
         try:
             sol = S_.QGMRESSolver(tol=1e-10, preconditioner=prec)
-            Aq = q_from_float(A)
+            Aq = np.array(q_from_float(A))          # writable: updated in place below
             bq = q_from_float(b)
             sol.solve(Aq, bq)
             Aq *= 2.0
